@@ -256,10 +256,10 @@ Section Book.
     rewrite parse_opened_data.
     set (toks := rc_date (op_rc op)).
     rewrite (stop_at_errors_clean NM _
-               (fun (st : nat * time * time) n =>
+               (fun (st : nat * option time * time) n =>
                   let '(cnt, first, last) := st in
                   match parse_date toks (header n) with
-                  | Some c => let t := time_of_civil c in (S cnt, if is_zero_time first then t else first, t)
+                  | Some c => let t := time_of_civil c in (S cnt, match first with Some _ => first | None => Some t end, t)
                   | None => (S cnt, first, zero_time)
                   end)); [| intros [[cnt fi] la] n; destruct (parse_date toks (header n)); reflexivity
                           | exact Hlc | exact Hlr ].
@@ -290,10 +290,10 @@ Section Book.
     rewrite parse_opened_data.
     set (toks := rc_date (op_rc op)).
     rewrite (stop_at_errors_first NM _ (fun e => EParse (perr_message e))
-               (fun (st : nat * time * time) n =>
+               (fun (st : nat * option time * time) n =>
                   let '(cnt, first, last) := st in
                   match parse_date toks (header n) with
-                  | Some c => let t := time_of_civil c in (S cnt, if is_zero_time first then t else first, t)
+                  | Some c => let t := time_of_civil c in (S cnt, match first with Some _ => first | None => Some t end, t)
                   | None => (S cnt, first, zero_time)
                   end)) with (pre := pre) (e := e) (post := post);
       [| intros s e0; reflexivity
